@@ -243,11 +243,42 @@ def maximal (v : View) (strict : Bool) : List PyId := v.eids.filter (isMaximal v
 
 def hasEmptyEdge (v : View) : Bool := v.eids.any (fun e => (v.mem e).isEmpty)
 
-/-- edges that have a duplicate: another edge ID with the same member set.  (`H.edges.duplicates()`
-    returns all of these except one representative per class; which one is a choice by label order or
-    insertion order and cannot be equivariant under both transformations.) -/
+/-- edges that have a duplicate: another edge ID with the same member set (the union of the classes of
+    size > 1 that `H.edges.duplicates()` forms; `duplicates` below is the function itself) -/
 def dupEdges (v : View) : List PyId :=
   v.eids.filter (fun e => v.eids.any (fun j => decide (j ≠ e) && sameSet (v.mem j) (v.mem e)))
+
+/-! `IDView.duplicates()` as the code runs it:
+    ```
+    for idx in self._id_dict: hashes[frozenset(self._bi_ids(idx))].append(idx)      # classes, in view order
+    for _, edges in hashes.items():
+        if len(edges) > 1:
+            try: dups.extend(sorted(edges)[1:])                                      # all but the smallest ID
+            except TypeError: dups.extend(edges[1:])                                 # all but the first inserted
+    ``` -/
+
+/-- Python's `a < b` between two IDs as far as `sorted()` needs it: ints numerically, strings by code
+    points; `none` = `TypeError` (an int against a str).  Tuple IDs and `None` are outside the model (the
+    driver does not answer `duplicates` for them). -/
+def pyLt? : PyId → PyId → Option Bool
+  | .atom (.int a), .atom (.int b) => some (decide (a < b))
+  | .atom (.str a), .atom (.str b) => some (decide (a < b))
+  | _, _ => none
+
+/-- `sorted(l)` does not raise: every pair is comparable (a list with an int and a str always raises) -/
+def sortable (l : List PyId) : Bool := l.all (fun x => l.all (fun y => (pyLt? x y).isSome))
+
+/-- `sorted(l)[0]` of a sortable list: a left-to-right minimum scan -/
+def minId : List PyId → Option PyId
+  | [] => none
+  | a :: t => some (t.foldl (fun m x => if pyLt? x m = some true then x else m) a)
+
+/-- the one ID of a class (listed in view order) that `duplicates()` does NOT report -/
+def keptOf (cls : List PyId) : Option PyId := if sortable cls then minId cls else cls.head?
+
+/-- `H.edges.duplicates()` as a set, listed in view order -/
+def duplicates (v : View) : List PyId :=
+  v.eids.filter (fun e => decide ((twins v e).length > 1) && decide (keptOf (twins v e) ≠ some e))
 
 /-! ### the degree pairs of `degree_assortativity(kind="uniform", exact=True)` -/
 
